@@ -153,6 +153,9 @@ class JobWorld:
         oc = self.outcome(point, name, submit)
         if not oc.get("submit_ok", True):
             self.submit_failed.add(key)
+            if oc.get("ghost"):
+                # reported as failed, but the job exists and will run
+                self.jobs[key] = Job(point, name, submit, list(oc["script"]))
             return False
         if key in self.jobs:
             # the same job is launched again (same submit number): the job script runs afresh
